@@ -59,6 +59,7 @@ theorem collectE_rn (hν : Adm ν) (bs : List Name) : ∀ e : Expr,
     collectE (rnStack ν bs) (rnE ν bs e) = (collectE bs e).map (rnEntry ν)
   | .lit _ => rfl
   | .var _ => rfl
+  | .dimVar _ => rfl
   | .enumVal _ _ => rfl
   | .un _ a => by simp only [rnE, collectE, collectE_rn hν bs a]
   | .bin _ a b => by simp only [rnE, collectE, collectE_rn hν bs a, collectE_rn hν bs b, List.map_append]
